@@ -10,7 +10,7 @@ rvars == <<tvars, rx>>
 
 Rx0 == [seen |-> FALSE, how |-> "none", hops |-> 0, trigger |-> TRUE, marked |-> TRUE,
         actIn |-> [present |-> FALSE], actOut |-> [present |-> FALSE], cfgIn |-> [present |-> FALSE],
-        cfgOut |-> [present |-> FALSE], statuses |-> <<>>, probeUp |-> TRUE, probeDown |-> TRUE, consUp |-> TRUE, consDown |-> TRUE]
+        cfgOut |-> [present |-> FALSE], statuses |-> <<>>, probeUp |-> TRUE, probeDown |-> TRUE, consUp |-> TRUE, consDown |-> TRUE, ctimeout |-> FALSE, cms |-> 0]
 
 RInit == TInit /\ rx = Rx0
 
@@ -19,7 +19,7 @@ TXfer == /\ IsEvent("xfer") /\ UNCHANGED <<vars, obs>>
          /\ rx' = [seen |-> TRUE, how |-> Ev.how, hops |-> Ev.hops, trigger |-> Ev.trigger, marked |-> Ev.marked,
                    actIn |-> Ev.actIn, actOut |-> Ev.actOut, cfgIn |-> Ev.cfgIn, cfgOut |-> Ev.cfgOut,
                    statuses |-> Ev.statuses, probeUp |-> Ev.probeUp, probeDown |-> Ev.probeDown,
-                   consUp |-> Ev.consUp, consDown |-> Ev.consDown]
+                   consUp |-> Ev.consUp, consDown |-> Ev.consDown, ctimeout |-> Ev.ctimeout, cms |-> Ev.cms]
 
 RNext == (TNext /\ rx' = IF Ev.e = "reset" THEN Rx0 ELSE rx) \/ TChain \/ TXfer
 RSpec == RInit /\ [][RNext /\ UNCHANGED PauseVars]_rvars
@@ -38,7 +38,11 @@ ROnlyAdds == BothCfg =>
 RRecovers == rx.seen => (/\ \A i \in 1..Len(rx.statuses) : rx.statuses[i] = 0
                          /\ rx.probeUp /\ rx.probeDown)
 (* whatever way a transfer ends: every line either end wrote left the chain once, in order *)
-RConserved == rx.seen => (rx.consUp /\ rx.consDown)
+(* (in a handshake that fails the relay consumes the server's fail line and writes its own to both sides) *)
+RConserved == (rx.seen /\ rx.how # "refuse") => (rx.consUp /\ rx.consDown)
+(* a server that refuses after the action: the client learns the reason (the server's fail line), as it  *)
+(* does when connected directly -- it does not sit out its own time-out                                   *)
+RRefusalReaches == (rx.seen /\ rx.how = "refuse") => ~rx.ctimeout
 (* a transfer through relays gives the same result as a direct one *)
 RSameResult == (rx.seen /\ rx.how = "success") => (\A r \in Roles : result[r] = "ok") /\ Fidelity
 =============================================================================
